@@ -66,7 +66,7 @@ func runWithGlobal(v *refsem.Val, stmts ...string) (obs []string) {
 		s.M.SetGlobal("x", impl.FromRef(*v))
 	}
 	for _, src := range stmts {
-		pr := impl.Parse(src, impl.ParseFuel(len(src)))
+		pr := impl.ParseCached(src)
 		if pr.Err != "" || pr.Panic != "" {
 			return append(obs, "PARSE "+pr.Err+pr.Panic)
 		}
@@ -135,9 +135,27 @@ func c17Judge(it c17Item) (sig, detail string) {
 			el = append(el, e.Canon())
 			ix = append(ix, "i:"+strconv.Itoa(i))
 		}
-		obs := runWithGlobal(&v, "r = []", "for e <- elems(x) r = r + [e]", "r", "r = []", "for i <- indices(x) r = r + [i]", "r", "r = []", "for i, e <- indices(x), elems(x) r = r + [x[i] == e]", "#r")
-		if len(obs) != 9 || obs[2] != "a:["+strings.Join(el, ",")+`] | ""` || obs[5] != "a:["+strings.Join(ix, ",")+`] | ""` || obs[8] != fmt.Sprintf(`i:%d | ""`, n) {
-			return "elems-indices", fmt.Sprintf("x = %s: observations %v", v.Canon(), obs)
+		// B > 0: the program first binds another built-in's name (or the names the built-ins use inside) to
+		// something of its own; the built-ins that are still the originals keep their contracts
+		rebound := c17Rebinds[it.B]
+		pre := "rebound = 0"
+		switch rebound {
+		case "":
+		case "GLOBALS":
+			pre = "{\n  a = \"ga\"\n  b = \"gb\"\n  i = \"gi\"\n  v = \"gv\"\n  e = \"ge\"\n}"
+		default:
+			pre = rebound + " = (p, q, s) -> 7"
+		}
+		eStmt, iStmt, zStmt := "for e <- elems(x) r = r + [e]", "for k <- indices(x) r = r + [k]", "for k, e <- indices(x), elems(x) r = r + [x[k] == e]"
+		if rebound == "elems" {
+			eStmt, zStmt = "r = "+"["+strings.Join(c17Lits(el), ", ")+"]", "for k <- indices(x) r = r + [k]"
+		}
+		if rebound == "indices" {
+			iStmt, zStmt = "for k <- fromto(0, #x) r = r + [k]", "for e <- elems(x) r = r + [e]"
+		}
+		obs := runWithGlobal(&v, pre, "r = []", eStmt, "r", "r = []", iStmt, "r", "r = []", zStmt, "#r")
+		if len(obs) != 10 || (rebound != "elems" && obs[3] != "a:["+strings.Join(el, ",")+`] | ""`) || obs[6] != "a:["+strings.Join(ix, ",")+`] | ""` || obs[9] != fmt.Sprintf(`i:%d | ""`, n) {
+			return "elems-indices", fmt.Sprintf("x = %s, after `%s`: observations %v", v.Canon(), strings.ReplaceAll(pre, "\n", " "), obs)
 		}
 	case "wrong-args":
 		obs := runWithGlobal(nil, it.S)
@@ -148,6 +166,18 @@ func c17Judge(it c17Item) (sig, detail string) {
 		return c17Binary(ensureCalcBinary(), it)
 	}
 	return "", ""
+}
+
+// c17Rebinds: names a program may bind before it uses elems / indices (index 0: none).
+var c17Rebinds = []string{"", "fromto", "indices", "elems", "toa", "aton", "write", "read", "exit", "GLOBALS"}
+
+// c17Lits is a placeholder list of as many literals as there are elements (used when elems itself is rebound).
+func c17Lits(el []string) []string {
+	out := make([]string, len(el))
+	for i := range out {
+		out[i] = "0"
+	}
+	return out
 }
 
 func intExpr(n int) string {
@@ -292,7 +322,7 @@ func init() {
 	core.Register(&core.Check{
 		ID:    "C17",
 		Level: "exploration",
-		Rule: "toa(x) against write(x) for every value of a 57-value alphabet (all kinds, boundary ints, floats incl. ±Inf, NaN, -0, subnormal and max, strings with quotes and line breaks, arrays nested to depth 3 containing functions) bound to a global; aton(toa(n)) == n for 16 boundary ints and 210 finite floats (powers of two, decimal fractions, subnormal, max); fromto(a, b) for all a, b in -3..3 and around 2^63-1 and -2^63; elems / indices (alone and zipped) over every array and string of length 0..4; wrong kinds and arities for all eight built-ins; through the built binary: every stdin of <= 3 lines from {\"a\", \"\", 5000 characters, \"two words\"} with and without final line break x 0..4 read() calls in -eval and file mode (in file mode also with a statement that ends in a runtime error between any two reads), and exit() with int, boundary and non-int arguments. " +
+		Rule: "toa(x) against write(x) for every value of a 57-value alphabet (all kinds, boundary ints, floats incl. ±Inf, NaN, -0, subnormal and max, strings with quotes and line breaks, arrays nested to depth 3 containing functions) bound to a global; aton(toa(n)) == n for 16 boundary ints and 210 finite floats (powers of two, decimal fractions, subnormal, max); fromto(a, b) for all a, b in -3..3 and around 2^63-1 and -2^63; elems / indices (alone and zipped) over every array and string of length 0..4, also after the program bound another built-in's name or the names a, b, i, v, e to values of its own; wrong kinds and arities for all eight built-ins; through the built binary: every stdin of <= 3 lines from {\"a\", \"\", 5000 characters, \"two words\"} with and without final line break x 0..4 read() calls in -eval and file mode (in file mode also with a statement that ends in a runtime error between any two reads), and exit() with int, boundary and non-int arguments. " +
 			"Oracle: the stated contracts computed by the reference model. distinct = distinct item; non-trivial = all but the empty-input cases",
 		Assumptions:     []string{"values are injected with the exported memory.SetGlobal", "a last input line without line break counts as a line; reading past the end of input is the read error"},
 		NeedsCalcBinary: true,
@@ -354,8 +384,10 @@ func c17Run(w *core.W) {
 	}
 	w.Family("elems-indices")
 	for i := range c17Containers() {
-		if !emit(c17Item{Kind: "elems-indices", A: i}) {
-			return
+		for b := range c17Rebinds {
+			if !emit(c17Item{Kind: "elems-indices", A: i, B: b}) {
+				return
+			}
 		}
 	}
 	w.Family("wrong-arguments")
